@@ -25,7 +25,8 @@
 //!                    texture): rejected
 //!             w<G>   a further `[[rssl::bind_group(G)]]` written BEFORE the other attributes of the declaration
 //!                    (the later attribute wins)
-//!             A<n>   an ill-formed attribute in front of all others (n = 0..9: no / too many arguments, unknown leaf,
+//!             E      the first storage keyword of the declaration is written twice (`extern extern`): accepted
+//!             A<n>   an ill-formed attribute in front of all others (n = 0..11: no / too many arguments, unknown leaf,
 //!                    unknown namespace, a single name, an argument that is no u32 constant; `BAD_ATTRS`): rejected
 //!             e      the keyword `extern` is written (the default storage class; after `static`/`groupshared`: rejected)
 //!             G      (with s) the static storage is spelled `groupshared`
@@ -93,6 +94,8 @@ pub struct Res {
     pub groupshared: bool,
     /// a declarator of a static-storage declaration with a `= StaticSampler {..}` initialiser: rejected
     pub static_ss: bool,
+    /// the (first) storage keyword is written twice (`static static`, `extern extern`): accepted
+    pub dup_kw: bool,
 }
 
 /// ill-formed attributes: (source text, what the type checker names in its message)
@@ -107,6 +110,8 @@ pub const BAD_ATTRS: &[(&str, &str)] = &[
     ("other::thing", "other"),
     ("single", "single"),
     ("rssl::bind_group(-1)", ""),
+    ("rssl::bind_group(WaveGetLaneCount())", "WaveGetLaneCount"),
+    ("vk::binding(0, 4294967296)", "4294967296"),
 ];
 
 #[derive(Clone, Copy, Debug, PartialEq)]
@@ -178,6 +183,7 @@ fn show_res(r: &Res) -> String {
         if r.bindless { flags.push("b".into()); }
         if r.ns { flags.push("n".into()); }
         if r.extern_kw { flags.push("e".into()); }
+        if r.dup_kw { flags.push("E".into()); }
     }
     if r.joined { flags.push("j".into()); }
     if is_static { flags.push("s".into()); }
@@ -209,6 +215,7 @@ fn parse_res(s: &str) -> Option<Res> {
         extern_kw: false,
         groupshared: false,
         static_ss: false,
+        dup_kw: false,
     };
     let on = |t: &str| -> Option<Option<u32>> { if t == "-" { Some(None) } else { t.parse().ok().map(Some) } };
     for f in flags.split('.').filter(|f| !f.is_empty()) {
@@ -224,6 +231,7 @@ fn parse_res(s: &str) -> Option<Res> {
             "z" => r.unsized_arr = true,
             "k" => r.wrong_class = true,
             "e" => r.extern_kw = true,
+            "E" => r.dup_kw = true,
             "G" => r.groupshared = true,
             "q" => r.static_ss = true,
             "Y" => r.extra.push(Ann::Semantic),
@@ -289,6 +297,7 @@ pub fn normalise(res: &mut [Res]) {
         res[i].bindless = res[h].bindless;
         res[i].extern_kw = res[h].extern_kw;
         res[i].groupshared = res[h].groupshared;
+        res[i].dup_kw = res[h].dup_kw;
     }
     for r in res.iter_mut() {
         if !matches!(&r.decl, Decl::StaticObject { .. }) {
@@ -297,6 +306,9 @@ pub fn normalise(res: &mut [Res]) {
         }
         if base_of(r).is_none() {
             r.extern_kw = false;
+        }
+        if !r.extern_kw && !matches!(&r.decl, Decl::StaticObject { .. }) {
+            r.dup_kw = false;
         }
     }
 }
@@ -534,11 +546,9 @@ pub fn source(p: &Prog) -> String {
             }
             Decl::Global { kind: Some(k), .. } | Decl::StaticObject { kind: k, .. } => {
                 let is_static = matches!(&r.decl, Decl::StaticObject { .. });
-                let storage = format!(
-                    "{}{}",
-                    if !is_static { "" } else if r.groupshared { "groupshared " } else { "static " },
-                    if r.extern_kw { "extern " } else { "" }
-                );
+                let first = if !is_static { "" } else if r.groupshared { "groupshared " } else { "static " };
+                let second = if r.extern_kw { "extern " } else { "" };
+                let storage = format!("{}{}{}", if r.dup_kw { if is_static { first } else { second } } else { "" }, first, second);
                 line.push_str(&format!("{}{}{} {}", attrs_text(r), storage, spelling(k), init_declarator(r)));
                 while i + consumed < p.res.len() && p.res[i + consumed].joined {
                     line.push_str(&format!(", {}", init_declarator(&p.res[i + consumed])));
@@ -920,7 +930,10 @@ fn oracle_pipeline(p: &Prog, tgt: Tgt, dflt: u32, groups: &[MetaGroup]) -> Resul
             }
         }
         if let Some(extra) = got.bindings.iter().find(|b| !w.iter().any(|wb| wb.0 == b.name)) {
-            return Err(format!("group {} reports {} which takes no slot there", g, extra.name));
+            return Err(match want.iter().find(|(_, v)| v.iter().any(|wb| wb.0 == extra.name)) {
+                Some((home, _)) => format!("{} belongs to group {} of this pipeline but is reported in group {}", extra.name, home, g),
+                None => format!("group {} reports {} which takes no slot there", g, extra.name),
+            });
         }
         let want_block = next_inline.get(&g).map(|size| (*next_index.get(&g).unwrap_or(&0), *size));
         if got.inline_block != want_block {
@@ -1125,9 +1138,11 @@ fn gen_joined(rng: &mut Rng, i: usize, h: &Res) -> Option<Res> {
         extern_kw: false,
         groupshared: false,
         static_ss: false,
+        dup_kw: false,
     };
     r.extern_kw = h.extern_kw;
     r.groupshared = h.groupshared;
+    r.dup_kw = h.dup_kw;
     if is_static && sampler && rng.chance(1, 20) {
         r.static_ss = true;
     }
@@ -1168,6 +1183,7 @@ fn gen_res(rng: &mut Rng, i: usize, sofar: &[Res]) -> Res {
         extern_kw: false,
         groupshared: false,
         static_ss: false,
+        dup_kw: false,
     };
     // a further declarator of the previous declaration
     if !sofar.is_empty() && rng.chance(1, 4) {
@@ -1246,9 +1262,13 @@ fn gen_res(rng: &mut Rng, i: usize, sofar: &[Res]) -> Res {
     }
     // storage class spellings; now and then something the type checker must reject
     match &r.decl {
-        Decl::Global { kind: Some(_), .. } => r.extern_kw = rng.chance(1, 8),
+        Decl::Global { kind: Some(_), .. } => {
+            r.extern_kw = rng.chance(1, 8);
+            r.dup_kw = r.extern_kw && rng.chance(1, 4);
+        }
         Decl::StaticObject { kind, .. } => {
             r.groupshared = rng.chance(1, 3);
+            r.dup_kw = rng.chance(1, 6);
             r.extern_kw = rng.chance(1, 60);
             r.static_ss = *kind == "SamplerState" && rng.chance(1, 20);
         }
@@ -1333,6 +1353,7 @@ pub fn matrix_progs(rng: &mut Rng) -> Vec<Prog> {
                 extern_kw: false,
                 groupshared: false,
                 static_ss: false,
+                dup_kw: false,
             };
             let alen = |rng: &mut Rng| if rng.chance(1, 3) { Some(rng.range(1, 3) as u32) } else { None };
             let mut head = blank("g_a", Decl::Global { set: None, ss: false, kind: Some(kind), len: alen(rng) });
